@@ -237,7 +237,14 @@ inline std::string props_str(const std::vector<model::MProp>& ps, Mode mode) {
                 switch (v.kind) {
                     case 0: s += "u" + std::to_string(v.u); break;
                     case 1: s += "i" + std::to_string(v.i); break;
-                    case 2: s += "r" + real_str(v.r); break;
+                    case 2: {
+                        // a real property value is a 64-bit float in both formats' data models: bit for bit
+                        // (only the sign of zero is not a value of its own)
+                        char rb[40];
+                        double rv = v.r == 0 ? 0.0 : v.r;
+                        snprintf(rb, sizeof rb, "%.17g", rv);
+                        s += std::string("r") + rb;
+                    } break;
                     default: s += "s" + bytes_str(v.s);
                 }
             }
